@@ -308,6 +308,12 @@ impl World {
     /// As `peer_handshake`, but `after_ack` is written in the same segment as the challenge
     /// acknowledgement (a peer may start sending distribution frames right behind it).
     pub async fn peer_handshake_with(&self, peer: &mut Peer, peer_flags: u64, after_ack: &[u8]) -> Result<u64, String> {
+        self.peer_handshake_mode(peer, peer_flags, after_ack, 0).await
+    }
+
+    /// `ack_mode`: 0 = correct acknowledgement, 1 = well-formed acknowledgement with a wrong digest,
+    /// 2 = the peer closes the stream instead of acknowledging.
+    pub async fn peer_handshake_mode(&self, peer: &mut Peer, peer_flags: u64, after_ack: &[u8], ack_mode: u8) -> Result<u64, String> {
         let mut stage = 0;
         let mut consumed = 0usize;
         let mut flags_lo = 0u32;
@@ -328,7 +334,9 @@ impl World {
                     (1, Ok(HsMsg::Complement { flags_hi: fh, .. })) => { flags_hi = fh; stage = 2; }
                     (2, Ok(HsMsg::Reply { challenge: theirs, digest })) => {
                         if digest != dist_digest(COOKIE, challenge) { return Err("library sent a wrong digest".into()); }
-                        let mut ack = vcore::proto::frame(&hs_ack(&dist_digest(COOKIE, theirs)), 2);
+                        if ack_mode == 2 { peer.close(); peer.dist_off = consumed; return Ok(0); }
+                        let digest = if ack_mode == 1 { [0x5au8; 16] } else { dist_digest(COOKIE, theirs) };
+                        let mut ack = vcore::proto::frame(&hs_ack(&digest), 2);
                         ack.extend_from_slice(after_ack);
                         peer.send(&ack);
                         peer.dist_off = consumed;
